@@ -230,6 +230,9 @@ def needs_wrap(et, node, kind='', field='', src=''):
             return isinstance(node, _LOW + (ast.BoolOp, ast.Compare, ast.UnaryOp)) and not (
                 isinstance(node, ast.UnaryOp) and not isinstance(node.op, ast.Not))
         return isinstance(node, (ast.Tuple, ast.NamedExpr, ast.Yield, ast.YieldFrom))
+    if et == 'withitem':  # `with yield y: pass` / `with w := 1: pass` are not valid as written, `with (yield y): pass` is
+        return isinstance(getattr(node, 'context_expr', None), (ast.Yield, ast.YieldFrom, ast.NamedExpr)) and \
+            getattr(node, 'optional_vars', None) is None and not src.lstrip().startswith('(')
     if et == 'pattern' and kind == 'MatchOr':
         return isinstance(node, (ast.MatchOr, ast.MatchAs)) and not (isinstance(node, ast.MatchAs) and node.pattern is None)
     if et == 'pattern':
@@ -954,6 +957,8 @@ def _one_src(plan, o, s):
     argument / base as written (`f(yield)`), it needs its parentheses there."""
     if o.elems is not None and plan.kind in ('Call', 'ClassDef') and plan.et in ('expr', 'arglike') and \
             isinstance(o.elems[0][0], (ast.Yield, ast.YieldFrom)) and not s.lstrip().startswith('('):
+        return '(' + s + ')'
+    if o.elems is not None and plan.et == 'withitem' and needs_wrap('withitem', o.elems[0][0], plan.kind, plan.field, s):
         return '(' + s + ')'
     return s
 
